@@ -9,6 +9,7 @@ import (
 	"time"
 
 	"github.com/miekg/dns"
+	"github.com/semihalev/sdns/config"
 	"github.com/semihalev/sdns/middleware"
 	"github.com/semihalev/sdns/verifx/verifxxhash"
 
@@ -42,10 +43,14 @@ type C03Op struct {
 	// Cut recipe (signed zone sq.test.): "deny" asks nx.sq.test. (validated NXDOMAIN, a subtree
 	// cut), "grow" creates below.nx.sq.test. in the zone, "below" asks it.
 	Cut string `json:"cut,omitempty"`
+	Sub int    `json:"sub,omitempty"` // 1-based index into c03Subnets: the client-subnet option the query carries
 }
 
 type C03Scenario struct {
 	MaskBits int     `json:"mask_bits,omitempty"` // 0 = full 64-bit keys
+	// ECS: "" = client-subnet forwarding off; otherwise forwarding is on (ceilings /24, /56) and
+	// the test zone declares a scope: "same" (= source length), "fixed24", "wider" (source-8), "zero".
+	ECS string `json:"ecs,omitempty"`
 	Ops      []C03Op `json:"ops"`
 }
 
@@ -55,12 +60,12 @@ func init() {
 		Level: "exploration",
 		Rule: "Scenario = cache-key width (64 bits, or 3-10 bits so that keys collide) + 10-60 operations: questions from confusable families " +
 			"(case variants; 'a.b' as one label vs two; 'ab' vs 'a','b'; octets 0x00/0x20/0xff/'*'/'\\\\'; names below and beside a denied name; " +
-			"types A/TXT/AAAA; CD on/off) through the wire ingress or the decoded ingress (canonical or \\DDD-escaped text), and purges. " +
+			"types A/TXT/AAAA; CD on/off; in a third of the scenarios client-subnet options of both families whose prefixes share network addresses at different lengths, against a zone that scopes its answers) through the wire ingress or the decoded ingress (canonical or \\DDD-escaped text), and purges. " +
 			"Non-trivial = a question was answered from cache after a confusable sibling had been cached, or two cached questions shared a key. " +
 			"Distinct = hash of per-operation (family, type, CD, ingress, from-cache, rcode).",
 		Assumptions: []string{
 			"collisions on the 64-bit key are produced by narrowing the hash result (verifxxhash shim in internal/cache/key.go and key_wire.go); the collision handling under test is unchanged",
-			"client-subnet scoping is C19's; subtree cuts are exercised with one recipe (a signed zone that gains a name below a denied one: the CD=1 partition must see it)",
+			"client-subnet scoping is exercised with forwarding on at the default ceilings (/24, /56) and four scope modes; policy variations are C19's; subtree cuts are exercised with one recipe (a signed zone that gains a name below a denied one: the CD=1 partition must see it)",
 		},
 		Components: kit.Components{
 			Real: []string{"server UDP engine + wire cache ladder", "Server.ServeMsg + Msg cache ladder", "internal/cache key functions (string, wire), full-preimage verification", "purgers", "resolver"},
@@ -77,12 +82,48 @@ func init() {
 	})
 }
 
+// c03Subnets: client-subnet options. Several share a network address at different lengths
+// (198.51.7.7/16 and 198.51.0.9/24 both start at 198.51.0.0), so an entry scoped to the longer
+// one sits exactly where a careless probe for the shorter one would look.
+var c03Subnets = []struct {
+	addr string
+	bits int
+}{{"198.51.0.9", 24}, {"198.51.7.7", 16}, {"198.51.7.7", 24}, {"198.51.100.77", 24}, {"198.51.100.200", 32}, {"198.48.0.1", 20}, {"198.48.9.9", 12},
+	{"2001:db8:1::7", 56}, {"2001:db8:1:2::9", 48}, {"2001:db8:1:2::9", 56}}
+
+// c03Forwarded is the subnet sdns may forward for option sub (ceilings /24 and /56, host bits zeroed).
+func c03Forwarded(sub int) (netip.Prefix, bool) {
+	if sub <= 0 || sub > len(c03Subnets) {
+		return netip.Prefix{}, false
+	}
+	a := netip.MustParseAddr(c03Subnets[sub-1].addr)
+	bits := c03Subnets[sub-1].bits
+	if a.Is4() && bits > 24 {
+		bits = 24
+	}
+	if a.Is6() && bits > 56 {
+		bits = 56
+	}
+	pf, _ := a.Prefix(bits)
+	return pf, true
+}
+
+// c03Made is one answer the test zone produced: whose question, for which audience.
+type c03Made struct {
+	ident string
+	aud   netip.Prefix // zero: produced without a client subnet
+	scope int
+}
+
 var c03LabelPool = [][]byte{[]byte("a"), []byte("b"), []byte("ab"), []byte("a.b"), []byte("c"), {'a', 0}, []byte("a b"), []byte("*"), {0xff}, []byte("a\\b"), []byte("nx"), []byte("a.nx"), []byte("xnx"), []byte("0")}
 
 func genC03(r *kit.RNG) *C03Scenario {
 	sc := &C03Scenario{}
 	if r.Chance(0.5) {
 		sc.MaskBits = r.Range(3, 10)
+	}
+	if r.Chance(0.3) {
+		sc.ECS = kit.Pick(r, []string{"same", "same", "fixed24", "wider", "zero"})
 	}
 	// a few base names, then siblings derived from them
 	var bases [][]string
@@ -141,6 +182,9 @@ func genC03(r *kit.RNG) *C03Scenario {
 		}
 		if r.Chance(0.06) {
 			op.Purge = true
+		}
+		if sc.ECS != "" && r.Chance(0.7) {
+			op.Sub = 1 + r.Intn(len(c03Subnets))
 		}
 		sc.Ops = append(sc.Ops, op)
 	}
@@ -253,6 +297,10 @@ func c03Run(sc *C03Scenario, tr *kit.Trace, res *kit.Result) {
 		},
 		Cfg: world.CfgSpec{QueryTimeoutS: 5, TimeoutMs: 1500, CacheSize: 4096},
 	}
+	if sc.ECS != "" {
+		spec.Cfg.ECS = &config.ECSConfig{Enabled: true}
+	}
+	made := map[string]c03Made{} // answer data -> the question and audience it was produced for
 	g, err := world.NewIng(spec, world.IngSpec{Workers: 32, Queue: 32, Sockets: 1, Spare: 32}, 3, tr)
 	if err != nil {
 		res.Fail("C03/harness", "listener: %v", err)
@@ -274,26 +322,63 @@ func c03Run(sc *C03Scenario, tr *kit.Trace, res *kit.Result) {
 			return nil
 		}
 		wire := buf[:n]
-		upstream[fmt.Sprintf("%x/%d/%v", wire, qq.Qtype, q.Msg.CheckingDisabled)]++
+		identUp := fmt.Sprintf("%x/%d/%v", wire, qq.Qtype, q.Msg.CheckingDisabled)
+		upstream[identUp]++
 		m := new(dns.Msg)
 		m.SetReply(q.Msg)
 		m.Authoritative = true
+		// the audience: the client subnet this query carries, and the scope declared for it
+		var audOpt *dns.EDNS0_SUBNET
+		var aud netip.Prefix
+		scope := 0
+		if o := q.Msg.IsEdns0(); o != nil {
+			for _, e := range o.Option {
+				if v, ok := e.(*dns.EDNS0_SUBNET); ok {
+					if a, ok := netip.AddrFromSlice(v.Address); ok {
+						audOpt = v
+						aud, _ = a.Unmap().Prefix(int(v.SourceNetmask))
+						switch sc.ECS {
+						case "same":
+							scope = int(v.SourceNetmask)
+						case "fixed24":
+							scope = 24
+						case "wider":
+							scope = int(v.SourceNetmask) - 8
+							if scope < 0 {
+								scope = 0
+							}
+						}
+					}
+				}
+			}
+		}
+		audTag := ""
+		if audOpt != nil {
+			audTag = fmt.Sprintf(" aud=%s scope=%d", aud, scope)
+		}
 		soa := &dns.SOA{Hdr: dns.RR_Header{Name: "uq.test.", Rrtype: dns.TypeSOA, Class: dns.ClassINET, Ttl: 300}, Ns: "ns.uq.test.", Mbox: "h.uq.test.", Serial: 1, Refresh: 1, Retry: 1, Expire: 1, Minttl: 300}
 		switch {
 		case c03Below(wire):
 			m.Rcode = dns.RcodeNameError
 			m.Ns = []dns.RR{soa}
 		case qq.Qtype == dns.TypeA:
-			ip, _ := c03Data(wire, qq.Qtype, q.Msg.CheckingDisabled)
+			ip, _ := c03Data(append(append([]byte(nil), wire...), audTag...), qq.Qtype, q.Msg.CheckingDisabled)
 			m.Answer = []dns.RR{&dns.A{Hdr: dns.RR_Header{Name: qq.Name, Rrtype: dns.TypeA, Class: dns.ClassINET, Ttl: 300}, A: ip[:]}}
+			made[netip.AddrFrom4(ip).String()] = c03Made{identUp, aud, scope}
 		case qq.Qtype == dns.TypeTXT:
 			_, txt := c03Data(wire, qq.Qtype, q.Msg.CheckingDisabled)
+			txt += audTag
 			m.Answer = []dns.RR{&dns.TXT{Hdr: dns.RR_Header{Name: qq.Name, Rrtype: dns.TypeTXT, Class: dns.ClassINET, Ttl: 300}, Txt: []string{txt}}}
+			made[txt] = c03Made{identUp, aud, scope}
 		default:
 			m.Ns = []dns.RR{soa}
 		}
 		if o := q.Msg.IsEdns0(); o != nil {
 			m.SetEdns0(1232, o.Do())
+			if audOpt != nil && len(m.Answer) > 0 {
+				ro := m.IsEdns0()
+				ro.Option = append(ro.Option, &dns.EDNS0_SUBNET{Code: dns.EDNS0SUBNET, Family: audOpt.Family, SourceNetmask: audOpt.SourceNetmask, SourceScope: uint8(scope), Address: audOpt.Address})
+			}
 		}
 		return world.PackReply(m, q)
 	}
@@ -331,6 +416,15 @@ func c03Run(sc *C03Scenario, tr *kit.Trace, res *kit.Result) {
 		q.Id = uint16(3000 + i)
 		q.CheckingDisabled = op.CD
 		q.SetEdns0(1232, false)
+		if op.Sub > 0 && op.Sub <= len(c03Subnets) {
+			a := netip.MustParseAddr(c03Subnets[op.Sub-1].addr)
+			fam := uint16(1)
+			if a.Is6() {
+				fam = 2
+			}
+			o := q.IsEdns0()
+			o.Option = append(o.Option, &dns.EDNS0_SUBNET{Code: dns.EDNS0SUBNET, Family: fam, SourceNetmask: uint8(c03Subnets[op.Sub-1].bits), Address: a.AsSlice()})
+		}
 		upBefore := upstream[ident]
 		var reply *dns.Msg
 		if op.Wire {
@@ -381,6 +475,51 @@ func c03Run(sc *C03Scenario, tr *kit.Trace, res *kit.Result) {
 			return
 		}
 		if want != dns.RcodeSuccess {
+			continue
+		}
+		if sc.ECS != "" && (op.Type == dns.TypeA || op.Type == dns.TypeTXT) {
+			// the zone's data depends on the audience too: attribute the reply through the
+			// record of what the zone produced
+			if len(reply.Answer) != 1 {
+				res.Fail("C03/answer-of-another-question", "op %d (%s ingress): %q/%s expects one record, got:\n%s", i, ingress, text, dns.TypeToString[op.Type], reply)
+				return
+			}
+			key := ""
+			switch rr := reply.Answer[0].(type) {
+			case *dns.A:
+				if a, ok := netip.AddrFromSlice(rr.A.To4()); ok {
+					key = a.String()
+				}
+			case *dns.TXT:
+				key = strings.Join(rr.Txt, "")
+			}
+			mk, known := made[key]
+			if !known || mk.ident != ident {
+				res.Fail("C03/answer-of-another-question", "op %d (%s ingress): %q/%s cd=%v (wire %x) was answered with %s, which the zone produced for %q — data of a different name, type or CD partition (key mask %d bits)\n%s",
+					i, ingress, text, dns.TypeToString[op.Type], op.CD, wire, reply.Answer[0].String(), mk.ident, sc.MaskBits, reply)
+				return
+			}
+			eff := mk.scope
+			if mk.aud.IsValid() && eff > mk.aud.Bits() {
+				eff = mk.aud.Bits()
+			}
+			if mk.aud.IsValid() && eff > 0 {
+				scopeNet, _ := mk.aud.Addr().Prefix(eff)
+				want, has := c03Forwarded(op.Sub)
+				// inside the scope = the whole subnet the client is identified by lies in it
+				if !has || want.Addr().Is4() != scopeNet.Addr().Is4() || want.Bits() < scopeNet.Bits() || !scopeNet.Contains(want.Addr()) {
+					who := "a client without a client-subnet option"
+					if has {
+						who = "a client identified by " + want.String()
+					}
+					res.Fail("C03/scoped-answer-outside-its-audience", "op %d (%s ingress): %q/%s from %s was answered with %s, which the authority produced for %s and scoped to %s\n%s",
+						i, ingress, text, dns.TypeToString[op.Type], who, reply.Answer[0].String(), mk.aud, scopeNet, reply)
+					return
+				}
+				if !fetched {
+					res.Probes["scoped-entry-served-from-cache"]++
+				}
+			}
 			continue
 		}
 		ip, txt := c03Data(wire, op.Type, op.CD)
